@@ -463,6 +463,16 @@ func main() {
 	o := hx.ParseFlags("C12")
 	res := hx.NewResult(o, "c12:lock-paths+stress")
 	res.Rule = "static: an extracted lock path with at least 4 events (distinct by operation and event list); dynamic: a stress episode in which at least 20 calls completed (distinct by build, GOMAXPROCS and the executed schedule)"
+	if o.NoModel {
+		// the proof step failed (that is reported by ./check). The driver does not depend on the proofs: if it was
+		// rebuilt from the regenerated lock paths, use it to search for the concrete failing path / schedule.
+		di, e1 := os.Stat(o.Driver)
+		gi, e2 := os.Stat(filepath.Join(filepath.Dir(o.Driver), "../../../Litestream/Gen/Locks.lean"))
+		if e1 == nil && e2 == nil && !di.ModTime().Before(gi.ModTime()) {
+			hx.NoModel, o.NoModel = false, false
+			res.Notes = append(res.Notes, "proof step failed; driver is current, static search runs")
+		}
+	}
 	d, err := hx.StartDriver(o.Driver)
 	if err != nil {
 		hx.Fatal(err)
